@@ -51,12 +51,57 @@ inline std::string Canon(const double& v)
 	return "[\"f64\"," + Mag8(b) + "]";
 }
 inline std::string Canon(const std::string& v) { return "[\"str\"," + BytesJson(v) + "]"; }
-inline std::string Canon(const std::u16string& v)
+// The harness' own conversion between UTF-8 and code points (independent of the library; texts of the specification's corpora are valid):
+// wide string targets ("u16str", "u32str") are reported as the UTF-8 text they hold, so that they compare with the abstract "str" value.
+inline std::u32string CpsFromUtf8(const std::string& s)
 {
-	std::string o = "[\"u16\",[";
-	for (size_t i = 0; i < v.size(); ++i) { if (i) o += ','; o += std::to_string(static_cast<unsigned>(v[i])); }
-	return o + "]]";
+	std::u32string out;
+	for (size_t i = 0; i < s.size();)
+	{
+		const unsigned char c = static_cast<unsigned char>(s[i]);
+		const int n = c < 0x80 ? 1 : c < 0xE0 ? 2 : c < 0xF0 ? 3 : 4;
+		char32_t cp = n == 1 ? c : n == 2 ? (c & 0x1F) : n == 3 ? (c & 0x0F) : (c & 0x07);
+		for (int j = 1; j < n && i + j < s.size(); ++j) cp = (cp << 6) | (static_cast<unsigned char>(s[i + j]) & 0x3F);
+		out.push_back(cp);
+		i += static_cast<size_t>(n);
+	}
+	return out;
 }
+inline std::string Utf8FromCps(const std::u32string& cps)
+{
+	std::string o;
+	for (char32_t cp : cps)
+	{
+		if (cp < 0x80) o.push_back(static_cast<char>(cp));
+		else if (cp < 0x800) { o.push_back(static_cast<char>(0xC0 | (cp >> 6))); o.push_back(static_cast<char>(0x80 | (cp & 0x3F))); }
+		else if (cp < 0x10000) { o.push_back(static_cast<char>(0xE0 | (cp >> 12))); o.push_back(static_cast<char>(0x80 | ((cp >> 6) & 0x3F))); o.push_back(static_cast<char>(0x80 | (cp & 0x3F))); }
+		else { o.push_back(static_cast<char>(0xF0 | (cp >> 18))); o.push_back(static_cast<char>(0x80 | ((cp >> 12) & 0x3F))); o.push_back(static_cast<char>(0x80 | ((cp >> 6) & 0x3F))); o.push_back(static_cast<char>(0x80 | (cp & 0x3F))); }
+	}
+	return o;
+}
+inline std::u16string Utf16FromCps(const std::u32string& cps)
+{
+	std::u16string o;
+	for (char32_t cp : cps)
+	{
+		if (cp < 0x10000) o.push_back(static_cast<char16_t>(cp));
+		else { cp -= 0x10000; o.push_back(static_cast<char16_t>(0xD800 + (cp >> 10))); o.push_back(static_cast<char16_t>(0xDC00 + (cp & 0x3FF))); }
+	}
+	return o;
+}
+inline std::u32string CpsFromUtf16(const std::u16string& s)
+{
+	std::u32string o;
+	for (size_t i = 0; i < s.size(); ++i)
+	{
+		const char32_t u = s[i];
+		if (u >= 0xD800 && u < 0xDC00 && i + 1 < s.size() && s[i + 1] >= 0xDC00 && s[i + 1] < 0xE000) { o.push_back(0x10000 + ((u - 0xD800) << 10) + (s[i + 1] - 0xDC00)); ++i; }
+		else o.push_back(u);
+	}
+	return o;
+}
+inline std::string Canon(const std::u16string& v) { return "[\"str\"," + BytesJson(Utf8FromCps(CpsFromUtf16(v))) + "]"; }
+inline std::string Canon(const std::u32string& v) { return "[\"str\"," + BytesJson(Utf8FromCps(v)) + "]"; }
 // time as (seconds, nanoseconds) of the count since epoch, floor division: a pure re-representation of count()
 template <class TRep, class TPeriod>
 std::string Canon(const std::chrono::duration<TRep, TPeriod>& d)
@@ -114,6 +159,7 @@ template <class T> T Prior()
 	else if constexpr (std::is_floating_point_v<T>) return static_cast<T>(7.5);
 	else if constexpr (std::is_same_v<T, std::string>) return "prior";
 	else if constexpr (std::is_same_v<T, std::u16string>) return u"prior";
+	else if constexpr (std::is_same_v<T, std::u32string>) return U"prior";
 	else return T{};
 }
 
@@ -138,6 +184,7 @@ void WithType(const std::string& t, F&& f)
 	else if (t == "f64") f(static_cast<double*>(nullptr));
 	else if (t == "str") f(static_cast<std::string*>(nullptr));
 	else if (t == "u16str") f(static_cast<std::u16string*>(nullptr));
+	else if (t == "u32str") f(static_cast<std::u32string*>(nullptr));
 	else if (t == "null") f(static_cast<std::nullptr_t*>(nullptr));
 	else if (t == "tp_ns") f(static_cast<TpNs*>(nullptr));
 	else if (t == "tp_ms") f(static_cast<TpMs*>(nullptr));
@@ -173,6 +220,8 @@ template <class T> void FromCanon(const JVal& v, T& out)
 	else if constexpr (std::is_same_v<T, float>) { uint32_t b = static_cast<uint32_t>(MagFrom(v[1])); std::memcpy(&out, &b, 4); }
 	else if constexpr (std::is_same_v<T, double>) { uint64_t b = MagFrom(v[1]); std::memcpy(&out, &b, 8); }
 	else if constexpr (std::is_same_v<T, std::string>) out = BytesFromJson(v[1]);
+	else if constexpr (std::is_same_v<T, std::u16string>) out = Utf16FromCps(CpsFromUtf8(BytesFromJson(v[1])));
+	else if constexpr (std::is_same_v<T, std::u32string>) out = CpsFromUtf8(BytesFromJson(v[1]));
 	else if constexpr (std::is_same_v<T, TpNs> || std::is_same_v<T, TpMs> || std::is_same_v<T, std::chrono::nanoseconds>) {
 		// ["ts", neg, mag8(seconds), nanoseconds]  (floor convention: nanoseconds in 0..999999999)
 		const int64_t s = SignedFrom(v[1], v[2]);
@@ -275,7 +324,7 @@ void RunObjectOps(TArchive& archive, const JVal& opsArr, Log* log, TSelf* self, 
 			{
 				WithType(op["t"].GetString(), [&](auto* tag) {
 					using T = std::remove_pointer_t<decltype(tag)>;
-					if constexpr (std::is_arithmetic_v<T> || std::is_same_v<T, std::string>)
+					if constexpr (std::is_arithmetic_v<T> || std::is_same_v<T, std::string> || std::is_same_v<T, std::u16string> || std::is_same_v<T, std::u32string>)
 					{
 						T target = Prior<T>();
 						Capture* cap = ActiveCapture();
